@@ -57,6 +57,8 @@ def default_may_raise(node: Node) -> bool:
     if isinstance(st, (ast.Pass, ast.Break, ast.Continue, ast.Global, ast.Nonlocal, ast.FunctionDef, ast.ClassDef,
                        ast.Import, ast.ImportFrom)):
         return isinstance(st, (ast.Import, ast.ImportFrom))
+    if isinstance(st, ast.AnnAssign):
+        return (st.value is not None and _expr_may_raise(st.value)) or not isinstance(st.target, ast.Name)
     return _expr_may_raise(st)
 
 
@@ -71,12 +73,15 @@ def _expr_may_raise(e: ast.AST) -> bool:
 
 class CFG:
     def __init__(self, fn: ast.AST, may_raise: Callable[[Node], bool] = default_may_raise,
-                 for_nonempty: bool = False) -> None:
+                 for_nonempty: bool = False, exception_catches_all: bool = False) -> None:
         """for_nonempty: model every `for` loop as executing its body at least once (first arrival at the
         header has no edge to the code after the loop) - for per-element obligations."""
         self.fn = fn
         self.may_raise = may_raise
         self.for_nonempty = for_nonempty
+        # `except Exception` does not catch KeyboardInterrupt/SystemExit/GeneratorExit: by default an exception edge
+        # also bypasses such a handler; set True to treat it as catching everything.
+        self.exception_catches_all = exception_catches_all
         self.entry = Node(None, kind="synthetic", label=ENTRY)
         self.exit = Node(None, kind="synthetic", label=EXIT)
         self.raise_exit = Node(None, kind="synthetic", label=RAISE)
@@ -215,7 +220,8 @@ class CFG:
             for t in body_entries:
                 self._edge(hn, t)
             handler_entries.append(hn)
-            if h.type is None or (isinstance(h.type, ast.Name) and h.type.id in ("BaseException", "Exception")):
+            if h.type is None or (isinstance(h.type, ast.Name) and h.type.id == "BaseException") or (
+                    self.exception_catches_all and isinstance(h.type, ast.Name) and h.type.id == "Exception"):
                 catches_all = True
         body_exc = list(handler_entries)
         if not catches_all:
